@@ -162,11 +162,14 @@ var quirkList = []struct {
 	q    uint32
 	name string
 }{
-	{refscript.QuirkTaprootZeroDigest, "taproot-no-digest-treated-as-zero-digest"},
-	{refscript.QuirkFindAndDeleteCompactSize, "findanddelete-compactsize-pattern"},
+	// open findings first: a disagreement that an open deviation explains is attributed to it
 	{refscript.QuirkFixedOffsetDER, "ecdsa-der-fixed-offset-parser"},
 	{refscript.QuirkDiscourageUnflaggedLockOps, "cltv-csv-without-flag-discouraged-as-nop"},
 	{refscript.QuirkLowSPlainComparison, "low-s-plain-comparison-of-out-of-range-s"},
+	// repaired in /repo (a0b65a9d, 8bdd00bb): kept so that a regression gets a precise name; these
+	// classes are NOT listed as known findings, a reappearance is a VIOLATION
+	{refscript.QuirkTaprootZeroDigest, "taproot-no-digest-treated-as-zero-digest"},
+	{refscript.QuirkFindAndDeleteCompactSize, "findanddelete-compactsize-pattern"},
 	{refscript.QuirkFindAndDeleteCompactSize | refscript.QuirkFixedOffsetDER, "findanddelete-compactsize-pattern+ecdsa-der-fixed-offset-parser"},
 }
 
